@@ -312,7 +312,7 @@ func (r *Run) Finish(minNonTrivial int) int {
 		"property_id": r.Prop, "tier": r.tier, "seed": r.seed, "level": r.Level,
 		"coverage": cov, "assumptions": r.assumptions, "wall_s": wall, "violations": nviol,
 	}
-	if ev["assumptions"] == nil {
+	if len(r.assumptions) == 0 {
 		ev["assumptions"] = []string{}
 	}
 	b, _ := json.MarshalIndent(ev, "", " ")
